@@ -1117,7 +1117,7 @@ def reload_calls():
             fn = n
     if fn is None:
         return None
-    pat = re.compile(r"^(pfx|spki)_table_|^rtr_(undo_)?update_(pfx|spki)_table$")
+    pat = re.compile(r"^(pfx|spki)_table_|^rtr_(undo_)?update_(pfx|spki)_table$|^rtr_purge_")
     out = []
 
     def classify(a):
